@@ -37,8 +37,11 @@ type N struct {
 	Sym  string `json:"sym,omitempty"` // tree id: resolved symbol (PatternFilter)
 	Sel  *N     `json:"sel,omitempty"`
 	Lit  string `json:"lit,omitempty"`
-	Ty   string `json:"ty,omitempty"` // generic node (PatternFilter): node type name
-	Fs   []*N   `json:"fs,omitempty"` // generic node: fields
+	Ty   string `json:"ty,omitempty"`  // generic node (PatternFilter): node type name
+	Fs   []*N   `json:"fs,omitempty"`  // generic node: fields
+	Lo   *N     `json:"lo,omitempty"`  // slice (pattern and tree): Low; in a tree possibly {k: absent}
+	Hi   *N     `json:"hi,omitempty"`  // slice: High
+	Max  *N     `json:"max,omitempty"` // slice: Max
 }
 
 func Decode(raw json.RawMessage) (*N, error) {
@@ -111,6 +114,8 @@ func (r *Renderer) pat(p *N, node bool) string {
 		return "(BinaryExpr " + r.pat(p.X, false) + " " + r.pat(p.O, false) + " " + r.pat(p.Y, false) + ")"
 	case "call":
 		return "(CallExpr " + r.pat(p.F, false) + " " + r.pat(p.Args, false) + ")"
+	case "slice":
+		return "(SliceExpr " + r.pat(p.X, false) + " " + r.pat(p.Lo, false) + " " + r.pat(p.Hi, false) + " " + r.pat(p.Max, false) + ")"
 	case "nil":
 		if node || !r.sugar() {
 			return "(List nil nil)"
@@ -175,7 +180,7 @@ func (r *Renderer) pat(p *N, node bool) string {
 			return fmt.Sprintf("%q", r.Sym(p.S))
 		}
 		return fmt.Sprintf("%q", p.S)
-	case "pnil": // the nil atom
+	case "pnil": // the nil atom (pattern.Nil); it has no node form: as the root or the operand of x@ the parser rejects it
 		return "nil"
 	}
 	panic("absyn: unknown pattern kind " + p.K)
@@ -205,6 +210,13 @@ type Builder struct {
 func (b *Builder) Expr(t *N) ast.Expr {
 	var e ast.Expr
 	switch t.K {
+	case "absent":
+		// an optional child that is not there: the nil ast.Expr (never wrapped)
+		return nil
+	case "slice":
+		s := &ast.SliceExpr{X: b.Expr(t.X), Low: b.Expr(t.Lo), High: b.Expr(t.Hi), Max: b.Expr(t.Max)}
+		s.Slice3 = s.Max != nil
+		e = s
 	case "id":
 		e = &ast.Ident{Name: t.Nm}
 	case "bin":
@@ -257,6 +269,10 @@ func Canon(v *N) string {
 		return "[" + strings.Join(parts, " ") + "]"
 	case "str":
 		return fmt.Sprintf("%q", v.S)
+	case "slice":
+		return "(slice " + Canon(v.X) + " " + Canon(v.Lo) + " " + Canon(v.Hi) + " " + Canon(v.Max) + ")"
+	case "absent": // a name bound to an absent child: the key is in Matcher.State, the value is nil
+		return "<nil>"
 	case "unbound":
 		return "<unbound>"
 	}
@@ -280,6 +296,12 @@ func CanonReal(v any) string {
 		return "(" + op + " " + CanonReal(v.X) + " " + CanonReal(v.Y) + ")"
 	case *ast.CallExpr:
 		return "(call " + CanonReal(v.Fun) + " " + CanonReal(v.Args) + ")"
+	case *ast.SliceExpr:
+		if v.Slice3 != (v.Max != nil) {
+			return fmt.Sprintf("<SliceExpr Slice3=%v Max=%v>", v.Slice3, v.Max)
+		}
+		// a nil ast.Expr (absent Low / High / Max) converts to the nil `any`: printed "<nil>" by the first case
+		return "(slice " + CanonReal(v.X) + " " + CanonReal(v.Low) + " " + CanonReal(v.High) + " " + CanonReal(v.Max) + ")"
 	case []ast.Expr:
 		parts := make([]string, len(v))
 		for i, e := range v {
@@ -292,6 +314,27 @@ func CanonReal(v any) string {
 		return "tok:" + v.String()
 	}
 	return fmt.Sprintf("<%T>", v)
+}
+
+// HasAbsent reports whether an abstract tree has an absent optional child.
+func HasAbsent(t *N) bool {
+	if t == nil {
+		return false
+	}
+	if t.K == "absent" {
+		return true
+	}
+	for _, c := range []*N{t.X, t.Y, t.F, t.Args, t.Lo, t.Hi, t.Max} {
+		if HasAbsent(c) {
+			return true
+		}
+	}
+	for _, c := range t.Es {
+		if HasAbsent(c) {
+			return true
+		}
+	}
+	return false
 }
 
 // EnvString prints an environment (name -> canonical value), sorted by name.
